@@ -24,10 +24,23 @@ func getValues(script, solver string, terms []string, timeoutS int) (map[string]
 	file := filepath.Join(dir, "q.smt2")
 	q := script + "(get-value (" + strings.Join(terms, " ") + "))\n"
 	os.WriteFile(file, []byte(q), 0o644)
+	// the solver that found the model first, then the others
+	order := []solverSpec{}
+	for _, s := range solvers {
+		if s.name == solver {
+			order = append(order, s)
+		}
+	}
 	for _, s := range solvers {
 		if s.name != solver {
-			continue
+			order = append(order, s)
 		}
+	}
+	last := "no solver"
+	if timeoutS > 20 {
+		timeoutS = 20
+	}
+	for _, s := range order {
 		argv := s.args(file, timeoutS)
 		cmd := exec.Command(argv[0], argv[1:]...)
 		var ob bytes.Buffer
@@ -35,9 +48,10 @@ func getValues(script, solver string, terms []string, timeoutS int) (map[string]
 		cmd.Stderr = &ob
 		cmd.Run()
 		out := ob.String()
+		last = out
 		lines := strings.SplitN(out, "\n", 2)
 		if strings.TrimSpace(lines[0]) != "sat" || len(lines) < 2 {
-			return nil, out
+			continue
 		}
 		vals := map[string]string{}
 		pairs := splitSexp(strings.TrimSpace(lines[1]))
@@ -53,9 +67,11 @@ func getValues(script, solver string, terms []string, timeoutS int) (map[string]
 				}
 			}
 		}
-		return vals, out
+		if len(vals) == len(terms) || len(vals) > 0 {
+			return vals, out
+		}
 	}
-	return nil, "no such solver"
+	return nil, last
 }
 
 var bvDecRe = regexp.MustCompile(`^\(_ bv(\d+) (\d+)\)$`)
@@ -582,15 +598,77 @@ func makeReplay(o *runOpts, P *Prog, r *FuncResult, ob *Obligation) *ReplayFile 
 		rp.Verdict = "replay-unavailable"
 		return rp
 	}
-	fn := r.VC.fn
-	inputs, raw, err := r.VC.extractInputs(ob, fn, o.timeout)
-	if err != nil {
+	vc := r.VC
+	fn := vc.fn
+	if fn == nil || vc.top == nil || vc.top.entrySt == nil {
 		rp.Verdict = "replay-unavailable"
-		rp.TestOutput = "input extraction: " + err.Error() + "\n" + raw
 		return rp
 	}
-	rp.Inputs = inputs
-	src, err := r.VC.genTestS1(fn, inputs)
+	heap := vc.top.entrySt.heap
+	// small-model search: bound all reachable slice/string lengths, relaxing step by step
+	var lens []Term
+	vc.scriptHeader = ob.Script
+	for i, p := range fn.Params {
+		if i < len(vc.top.args) {
+			vc.boundTerms(vc.valTermQuiet(vc.top.args[i]), p.Type(), heap, 0, &lens)
+		}
+	}
+	script := ob.Script
+	// prefer a model in which opaque specification functions have their real definitions
+	if len(vc.opaqueDefs) > 0 {
+		rs := ob.Script
+		for d, def := range vc.opaqueDefs {
+			rs = strings.Replace(rs, d+"\n", def+"\n", 1)
+		}
+		if vals, _ := getValues(rs, ob.Solver, []string{"true"}, o.timeout); vals != nil {
+			script = rs
+		}
+	}
+	base := script
+	if len(lens) > 0 {
+		for _, bound := range []int64{8, 64, 1024, maxReplayElems} {
+			var bs []string
+			for _, l := range lens {
+				bs = append(bs, "(assert "+vc.idxLe(l, vc.idxLit(bound)).S+")")
+			}
+			s2 := strings.Replace(base, "(check-sat)\n", strings.Join(bs, "\n")+"\n(check-sat)\n", 1)
+			if vals, _ := getValues(s2, ob.Solver, []string{"true"}, o.timeout); vals != nil {
+				script = s2
+				break
+			}
+		}
+	}
+	x := &extractor{vc: vc, ob: ob, script: script, timeout: o.timeout, heap: heap}
+	// fork flags of the model
+	vc.flagValues = map[string]bool{}
+	for _, name := range vc.flagsUsed {
+		n := smtIdent("flag!" + name)
+		vc.flagValues[name] = x.values([]string{n})[n] == "true"
+	}
+	var inputs, frees []*CV
+	for i, p := range fn.Params {
+		if i >= len(vc.top.args) {
+			break
+		}
+		inputs = append(inputs, x.extract(vc.valTermQuiet(vc.top.args[i]), p.Type(), 0))
+	}
+	for _, fv := range fn.FreeVars {
+		v := vc.top.freeVar[fv.Name()]
+		if v.P != nil {
+			el := derefType(fv.Type())
+			t := vc.loadPlace(vc.top.entrySt, v.P)
+			frees = append(frees, x.extract(t, el, 0))
+		} else {
+			frees = append(frees, x.extract(v.T, fv.Type(), 0))
+		}
+	}
+	if x.err != nil {
+		rp.Verdict = "replay-unavailable"
+		rp.TestOutput = "input extraction: " + x.err.Error() + "\n" + x.raw
+		return rp
+	}
+	rp.Inputs = map[string]interface{}{"params": inputs, "free_vars": frees, "fork_flags": vc.flagValues}
+	src, err := vc.genTestS2(fn, inputs, frees)
 	if err != nil {
 		rp.Verdict = "replay-unavailable"
 		rp.TestOutput = err.Error()
@@ -599,15 +677,16 @@ func makeReplay(o *runOpts, P *Prog, r *FuncResult, ob *Obligation) *ReplayFile 
 	rp.TestSource = src
 	pkgDir, _ := filepath.Rel(modulePath, fnPkgPath(fn))
 	out, _ := runOverlayTest(o.repo, pkgDir, src)
+	if len(out) > 6000 {
+		out = out[:3000] + "\n...\n" + out[len(out)-3000:]
+	}
 	rp.TestOutput = out
 	panicked := strings.Contains(out, "VERIF-PANIC:") || strings.Contains(out, "panic:")
+	if strings.Contains(out, "[build failed]") || strings.Contains(out, "[setup failed]") {
+		rp.Verdict = "replay-unavailable"
+		return rp
+	}
 	switch {
-	case strings.HasPrefix(ob.Kind, "safe."):
-		if panicked {
-			rp.Verdict = "reproduced"
-		} else {
-			rp.Verdict = "not-reproduced"
-		}
 	case ob.Kind == "post":
 		if panicked {
 			rp.Verdict = "reproduced"
@@ -622,36 +701,16 @@ func makeReplay(o *runOpts, P *Prog, r *FuncResult, ob *Obligation) *ReplayFile 
 		if j := strings.Index(line, "\n"); j >= 0 {
 			line = line[:j]
 		}
-		var raws []map[string]interface{}
-		if json.Unmarshal([]byte(line), &raws) != nil {
+		var dump struct {
+			Results []*CV `json:"results"`
+			Post    []*CV `json:"post"`
+		}
+		if json.Unmarshal([]byte(line), &dump) != nil {
 			rp.Verdict = "not-reproduced"
 			return rp
 		}
-		var outs []ConcreteVal
-		for _, m := range raws {
-			cv := ConcreteVal{}
-			cv.Name, _ = m["name"].(string)
-			cv.Kind, _ = m["kind"].(string)
-			cv.Int, _ = m["int"].(string)
-			cv.Bool, _ = m["bool"].(bool)
-			cv.Str, _ = m["str"].(string)
-			cv.IsNil, _ = m["nil"].(bool)
-			if bs, ok := m["bytes"].([]interface{}); ok {
-				for _, x := range bs {
-					f, _ := x.(float64)
-					cv.Bytes = append(cv.Bytes, int(f))
-				}
-			}
-			if es, ok := m["err_is"].([]interface{}); ok {
-				for _, x := range es {
-					s, _ := x.(string)
-					cv.ErrIs = append(cv.ErrIs, s)
-				}
-			}
-			outs = append(outs, cv)
-		}
-		res, eo := P.evalPostConcrete(fn, r.Contract, ob.Src, inputs, outs, o.timeout)
-		rp.TestOutput += "\npostcondition on observed outputs: negation is " + res + "\n" + eo
+		res, eo := P.evalPostConcrete2(fn, r.Contract, ob.Src, inputs, dump.Post, dump.Results, frees, vc.flagValues, o.timeout)
+		rp.TestOutput += "\npostcondition evaluated on the observed pre/post state: negation is " + res + "\n" + eo
 		if res == "sat" {
 			rp.Verdict = "reproduced"
 		} else {
@@ -660,11 +719,48 @@ func makeReplay(o *runOpts, P *Prog, r *FuncResult, ob *Obligation) *ReplayFile 
 	default:
 		if panicked {
 			rp.Verdict = "reproduced"
-		} else {
-			rp.Verdict = "not-reproduced"
+			return rp
+		}
+		rp.Verdict = "not-reproduced"
+		if ob.Kind == "safe.overflow" || ob.Kind == "safe.conv" {
+			// silent wrap-around does not panic: it is reproduced if the real run violates a postcondition
+			i := strings.Index(out, "VERIF-RESULT: ")
+			if i < 0 {
+				return rp
+			}
+			line := out[i+len("VERIF-RESULT: "):]
+			if j := strings.Index(line, "\n"); j >= 0 {
+				line = line[:j]
+			}
+			var dump struct {
+				Results []*CV `json:"results"`
+				Post    []*CV `json:"post"`
+			}
+			if json.Unmarshal([]byte(line), &dump) != nil {
+				return rp
+			}
+			for _, e := range r.Contract.Ensures {
+				res, _ := P.evalPostConcrete2(fn, r.Contract, e.Src, inputs, dump.Post, dump.Results, frees, vc.flagValues, o.timeout)
+				if res == "sat" {
+					rp.TestOutput += "\nobserved run violates postcondition: " + e.Src
+					rp.Verdict = "reproduced"
+					return rp
+				}
+			}
 		}
 	}
 	return rp
+}
+
+// valTermQuiet converts an argument value to its SMT term without reporting errors.
+func (vc *VC) valTermQuiet(v Val) Term {
+	if v.P != nil {
+		if (v.P.Kind == BPtr || v.P.Kind == BArr) && len(v.P.Path) == 0 {
+			return v.P.Ref
+		}
+		return mk("0", sortRef)
+	}
+	return v.T
 }
 
 // outsideClass re-checks a failing obligation with the known finding's input class excluded.
